@@ -9,15 +9,15 @@ NSHARD = NCPU
 
 # lens: the observable fields a property constrains (a divergence elsewhere belongs to another property)
 PROPS = {
-    "C01": dict(families=["scalar-s", "scalar-n", "setvalue"], lens={"vals", "called", "err", "seterr"}, rand=("C01", 6000, 150000),
+    "C01": dict(families=["scalar-s", "scalar-n", "setvalue"], lens={"vals", "called", "err", "seterr", "agree"}, rand=("C01", 6000, 150000),
                 preds=["ScalarExact", "FlagSemantics", "CalledExact"]),
     "C02": dict(families=["multi-ss", "multi-is", "multi-fs", "multi-sm", "setvalue"], lens={"vals", "err", "rest", "seterr"}, rand=("C02", 6000, 150000),
                 preds=["IntakeCount", "StoredInOrder", "MapStored"]),
-    "C03": dict(families=["conserve", "conserve-n"], lens={"rest"}, rand=("C03", 6000, 150000),
+    "C03": dict(families=["conserve", "conserve-n", "deep-ro"], lens={"rest"}, rand=("C03", 6000, 150000),
                 preds=["Conservation", "UnknownNeverDropped"]),
     "C04": dict(families=["term", "scalar-s"], lens={"rest", "vals", "called", "err"}, rand=("C04", 6000, 150000),
                 preds=["TerminatorRoles", "Frozen (action property)"]),
-    "C05": dict(families=["abbrev"], lens={"vals", "called", "as", "err"}, rand=("C05", 6000, 400000),
+    "C05": dict(families=["abbrev", "late-wrapper"], lens={"vals", "called", "as", "err"}, rand=("C05", 6000, 400000),
                 preds=["UniquePrefixEqFull", "ExactWins", "AmbiguousRejectedAll"]),
     "C06": dict(families=["alias"], lens={"vals", "called", "as", "agree"}, rand=("C06", 6000, 400000),
                 preds=["AliasEqPrimary", "CalledExact", "UntouchedKeepDefault", "FrameOneOption (action property)"]),
@@ -25,11 +25,11 @@ PROPS = {
                 preds=["LongModeIndependent", "RewriteEquiv"]),
     "C08": dict(families=["wrapper", "conserve", "inherit"], lens={"err", "warn", "rest"}, rand=("C08", 6000, 150000),
                 preds=["UnknownNeverDropped"]),
-    "C10": dict(families=["tree"], lens={"ran", "derr", "helpof", "rest", "writer"}, rand=("C10", 6000, 400000),
+    "C10": dict(families=["tree", "late-wrapper"], lens={"ran", "derr", "helpof", "rest", "writer"}, rand=("C10", 6000, 400000),
                 preds=["ExactlyOneFn", "DeepestCommand"]),
-    "C11": dict(families=["required"], lens={"err", "derr", "ran", "helpof", "writer"}, rand=("C11", 6000, 600000),
+    "C11": dict(families=["required", "late-wrapper"], lens={"err", "derr", "ran", "helpof", "writer"}, rand=("C11", 6000, 600000),
                 preds=["RequiredEnforced"]),
-    "C12": dict(families=["env", "valid", "setvalue"], lens={"vals", "called", "as", "seterr"}, rand=("C12", 6000, 800000),
+    "C12": dict(families=["env", "valid", "setvalue", "late-wrapper"], lens={"vals", "called", "as", "seterr"}, rand=("C12", 6000, 800000),
                 preds=["EnvPrecedence", "CalledExact", "UntouchedKeepDefault"]),
     "C17": dict(families=["complete", "complete-eq", "complete-w"], lens={"comps", "exits", "ran", "writer"}, rand=("C17", 6000, 800000),
                 preds=["CandidatesExact", "OfferedAccepted"]),
@@ -39,7 +39,7 @@ PROPS = {
                 preds=["NotStuck", "VariantDecreases (action property)", "ErrImpliesNilRest"]),
     "C20": dict(families=["order", "complete", "complete-eq"], lens={"nondet", "err", "derr", "comps", "warn"}, rand=[("C20", 4000, 300000), ("C20c", 2000, 200000)],
                 repeat=6, twice=True, preds=["FixedRule"]),
-    "C09": dict(families=["term", "conserve", "inherit"], lens={"rest", "vals", "called"}, rand=("C09", 6000, 150000),
+    "C09": dict(families=["term", "conserve", "inherit", "deep-ro"], lens={"rest", "vals", "called"}, rand=("C09", 6000, 150000),
                 preds=["StopRoles", "PrefixAsUnordered", "NoStopAsUnordered", "Frozen (action property)"]),
 }
 
